@@ -204,6 +204,10 @@ func explore(run *mc.Run, c Cfg, maxDepth int, levelCap int, workers []*worker, 
 			}
 			st.Transitions++
 			post, fails := checkStep(c, t.n.model, t.op, r.obs)
+			if len(fails) > 0 && strings.HasPrefix(fails[0], "internal:") {
+				run.HarnessError("%s: %s after %s", c, fails[0], pathString(path))
+				continue
+			}
 			if len(fails) > 0 {
 				st.Violating++
 				cs := Case{Cfg: c, KindName: kindName[c.Kind], Path: path, Readable: pathString(path)}
